@@ -282,6 +282,16 @@ reg.add(Proc(R + 'C3.legacy_ro', [('self', OBJ)], result=SEQO, trusted=True,
              note='spec function legacy(leaf) := what _legacy_ro computes; checked bounded by the falsifier'))
 
 
+def _frame_resolvers(c):
+    """only the resolver's own cache and flag change; lists that existed before keep their contents; trees and leaves stay"""
+    o = z3.Const('fr2_o', Obj)
+    return z3.And(
+        z3.ForAll([o], z3.Implies(o != c.a.self, z3.And(c.h('_C3__mro')[o] == c.h0('_C3__mro')[o],
+                                                      c.h('direct_inconsistency')[o] == c.h0('direct_inconsistency')[o]))),
+        z3.ForAll([o], z3.Implies(c.h0('$alloc')[o], z3.And(c.h('$list')[o] == c.h0('$list')[o], c.h('$alloc')[o]))),
+        c.h('base_tree') == c.h0('base_tree'), c.h('leaf') == c.h0('leaf'), c.h('bases_had_inconsistency') == c.h0('bases_had_inconsistency'))
+
+
 def _merge_inv(c):
     btr, base, result = c.l.base_tree_remaining, c.l.base, c.l.result
     rv = c.h('$list')[result]
@@ -296,6 +306,10 @@ def _merge_inv(c):
             c.h('$list')[z3.Const('m_o', Obj)] == c.h0('$list')[z3.Const('m_o', Obj)]))),
         ('base_tree-unchanged', c.h('base_tree') == c.h0('base_tree')),
         ('leaf-unchanged', c.h('leaf') == c.h0('leaf')),
+        ('other-caches-unchanged', z3.ForAll([z3.Const('m_o2', Obj)], z3.Implies(
+            z3.Const('m_o2', Obj) != c.a.self, c.h('_C3__mro')[z3.Const('m_o2', Obj)] == c.h0('_C3__mro')[z3.Const('m_o2', Obj)]))),
+        ('inherited-flags-unchanged', c.h('bases_had_inconsistency') == c.h0('bases_had_inconsistency')),
+        ('allocation-only-grows', z3.ForAll([z3.Const('m_o3', Obj)], z3.Implies(c.h0('$alloc')[z3.Const('m_o3', Obj)], c.h('$alloc')[z3.Const('m_o3', Obj)]))),
     ]
 
 
@@ -316,6 +330,7 @@ reg.add(Proc(
         ('legacy-when-not', z3.Implies(z3.Not(mergeable(T0(c))), z3.And(
             c.res == legacy(c.h0('leaf')[c.a.self]), truthy(c.h('direct_inconsistency')[c.a.self]),
             _others_unchanged(c, 'direct_inconsistency')))),
+        ('other-resolvers-and-older-lists-untouched', _frame_resolvers(c)),
     ],
     loops={'L0': Loop(_merge_inv)},
 ))
@@ -347,6 +362,7 @@ reg.add(Proc(
                                                 c.h('direct_inconsistency') == c.h0('direct_inconsistency'))),
         ('cached', c.h('_C3__mro')[c.a.self] != NONE),
         ('resolver-inv', resolver_inv(c)),
+        ('other-resolvers-and-older-lists-untouched', _frame_resolvers(c)),
     ],
 ))
 
@@ -507,3 +523,11 @@ reg.add(Proc(
 ))
 reg.assumptions.append('Specification._do_calculate_ro is ro.ro (class attribute); the dictionary {base: base.__sro__} handed to it is not modelled as a '
                        'dictionary: the order is a function of the specification, its bases and the current orders of the bases')
+
+
+# C3.__init__ (construction of the resolver tree: recursion over the bases through the memo table, the single-base fast path) is
+# NOT under contract.  A first contract translated (the engine executes the body: constructor recursion through `kind(base, memo)`,
+# the comprehension that calls mro(), any(...had_inconsistency...)), but closing it needs (i) "an order returned by mro() holds no
+# None" as an invariant of _merge and of the cached order, and (ii) for the fast path the lemma "the C3 merge of [[C], lin(b), [b]]
+# is [C] + lin(b)" (a linearization starts with its class and lists nothing twice) -- see DESIGN 10.2.  The frames needed for it
+# (mro()/_merge touch no other resolver and no older list) are proved above.
